@@ -8,18 +8,6 @@ namespace TdModel.C23
 open TdModel TdModel.Bin
 open TdModel.Facts.C23
 
-theorem getU32_lt {b r : Bytes} {n : Nat} (h : getU32 b = .ok (n, r)) : n < 2 ^ 32 := by
-  unfold getU32 at h
-  split at h
-  · cases h
-  · simp only [Except.ok.injEq, Prod.mk.injEq] at h
-    rw [← h.1]
-    have := fromLE_lt (b.take 4)
-    have hl : (b.take 4).length ≤ 4 := by simp [List.length_take]; omega
-    calc fromLE (b.take 4) < 256 ^ (b.take 4).length := this
-      _ ≤ 256 ^ 4 := Nat.pow_le_pow_right (by decide) hl
-      _ = 2 ^ 32 := by decide
-
 /-- `Named gz b id`: the payload `b` *names* request `id` — it is an rpc_result, bad_msg_notification
 or bad_server_salt whose request-id field is `id`, or a container one of whose messages names
 `id`, or a gzip packet whose content names `id`.  (Specification, independent of `handle`.) -/
